@@ -322,7 +322,8 @@ class VM:
             self._handle_python_exception("SyntaxError", str(e))
         except _ThrowSignal as signal:
             # A script exception crossed a native frame: dispatch it here
-            self._throw(signal.value)
+            # (it keeps the location of the place that threw it)
+            self._throw(signal.value, rethrown=True)
 
     def _execute_opcode(self, op: OpCode, arg: Optional[int], frame: CallFrame) -> None:
         """Execute a single opcode."""
@@ -2740,11 +2741,11 @@ class VM:
             proto = proto._prototype
         return False
 
-    def _throw(self, exc: JSValue) -> None:
+    def _throw(self, exc: JSValue, rethrown: bool = False) -> None:
         """Throw an exception."""
         # Error objects record where they were thrown; any other value is
         # handed to the handler exactly as it was thrown
-        if self._is_error_object(exc):
+        if not rethrown and self._is_error_object(exc):
             line, column = self._get_source_location()
             if line is not None:
                 exc.set("lineNumber", line)
